@@ -553,7 +553,7 @@ func isFuncNil(v Value) bool {
 func (ex *Exec) unop(fr *frame, instr *ssa.UnOp, x Value) Value {
 	switch instr.Op {
 	case token.ARROW:
-		ex.unsupported(fr, "channel receive")
+		return ex.chanRecv(fr, instr, x)
 	case token.SUB:
 		switch x := x.(type) {
 		case BV:
@@ -1210,7 +1210,15 @@ func (ex *Exec) callBuiltin(caller *frame, callpos token.Pos, fn *ssa.Builtin, a
 		copy(dst, tmp)
 		return intVal(n)
 	case "close":
-		ex.unsupported(caller, "close of channel")
+		ch, _ := args[0].(*Chan)
+		if ch == nil {
+			ex.rtPanic("close of nil channel")
+		}
+		if ch.closed {
+			ex.rtPanic("close of closed channel")
+		}
+		ch.closed = true
+		return nil
 	case "delete":
 		m := args[0].(*Map)
 		if m == nil {
